@@ -140,8 +140,8 @@ theorem downsample_same_forks_and_tips (t : Table) (hw : WF t) (hl : labelsOKB t
           exact downsample_keeps_roots_leafs_branches t hw hl f pres nr this.1 (Or.inl hrp)
         rw [List.find?_eq_none] at hnone
         exact hnone r hrmem (by simpa using hrk)
-      · have := ids_nonneg (WF_downsample hw f pres).2.1 (List.mem_of_find?_eq_some ha' |> fun _ => by
-          have := List.find?_some ha'; simpa using this)
+      · have hka : a ∈ ids (downsample t f pres) := by simpa using List.find?_some ha'
+        have := ids_nonneg (WF_downsample hw f pres).2.1 hka
         omega
     · have := ids_nonneg (WF_downsample hw f pres).2.1 hpk
       omega
